@@ -2,6 +2,7 @@ package rules
 
 import (
 	"fmt"
+	"go/constant"
 	"go/token"
 	"go/types"
 	"strings"
@@ -80,7 +81,46 @@ func checkC29(c *Ctx) {
 			}
 		}
 	}
-	c.Oblige("C29.alpha", ShortName(ff), c.Prog.FuncPos(ff), bad == "" && nChar >= 1, "a character of the text is used for something other than a comparison with ' ' (at "+bad+"): the space pattern no longer determines the result")
+	// the text handed to a library function: only searches for / trimming of the space
+	for _, f := range fns {
+		for _, cs := range Calls(f) {
+			g := Callee(cs.Common())
+			if g == nil || PkgPathOf(g) == PkgPathOf(ff) {
+				continue
+			}
+			hasText := false
+			for _, a := range cs.Common().Args {
+				if isStringT(a.Type()) {
+					if _, isConst := a.(*ssa.Const); !isConst {
+						hasText = true
+					}
+				}
+			}
+			if !hasText {
+				continue
+			}
+			nChar++
+			isSpaceArg := func(v ssa.Value) bool {
+				if k, ok := ConstInt(v); ok {
+					return k == ' '
+				}
+				if k, ok := v.(*ssa.Const); ok && k.Value != nil && k.Value.Kind() == constant.String {
+					return constant.StringVal(k.Value) == " "
+				}
+				return false
+			}
+			switch g.String() {
+			case "(*strings.Builder).WriteString":
+			case "strings.LastIndexByte", "strings.IndexByte", "strings.TrimLeft", "strings.TrimRight", "strings.Trim", "strings.LastIndex", "strings.Index":
+				if !isSpaceArg(cs.Common().Args[1]) {
+					bad = c.Prog.Pos(cs.Pos())
+				}
+			default:
+				bad = c.Prog.Pos(cs.Pos())
+			}
+		}
+	}
+	c.Oblige("C29.alpha", ShortName(ff), c.Prog.FuncPos(ff), bad == "" && nChar >= 1, "a character of the text is used for something other than a comparison with / a search for the space character (at "+bad+"): the space pattern no longer determines the result")
 
 	// ---- C29.wrap
 	tabW := int64(8)
